@@ -34,9 +34,23 @@ class CoreCheck(LineCheck):
     with_faults = 0.25
     standing = 0.1
 
+    leaf = False           # does this property's proof depend on the translated leaf functions?
+
     @property
     def coq_targets(self):
-        return CORE_VO + self.coq_extra
+        return CORE_VO + (["theories/Gen/Leaf.vo", "theories/Base/LeafLink.vo"] if self.leaf else []) + self.coq_extra
+
+    def pre_proof(self, ctx):
+        """way (a) of the tie: regenerate Gen/Leaf.v from the current C source"""
+        if not self.leaf:
+            return None
+        import importlib.util
+        spec = importlib.util.spec_from_file_location("c2gallina", os.path.join(vlib.VERIF, "gen", "c2gallina.py"))
+        mod = importlib.util.module_from_spec(spec)
+        spec.loader.exec_module(mod)
+        with vlib.Lock(os.path.join(vlib.COQ, ".lock")):
+            err = mod.main()
+        return ("leaf translator failed (tie broken): " + err) if err else None
 
     @property
     def trusted(self):
@@ -209,6 +223,7 @@ class C01(CoreCheck):
 
 class C02(CoreCheck):
     pid = "C02"
+    leaf = True
     codes = [(200, 300)]
     profiles = ["fd", "fd", "mixed"]
     rule = ("handler toggling histories (NULL->h->NULL->h within and across iterations), conditions raised before/after registration, "
@@ -223,6 +238,7 @@ class C02(CoreCheck):
 
 class C03(CoreCheck):
     pid = "C03"
+    leaf = True
     codes = [(300, 400), (101, 102), (1101, 1103)]
     profiles = ["fd", "fd", "mixed"]
     rule = ("multi-iteration readiness patterns (ready in one iteration, not the next), struct reuse after unregister, cookie changes, "
@@ -234,6 +250,7 @@ class C03(CoreCheck):
 
 class C04(CoreCheck):
     pid = "C04"
+    leaf = True
     codes = [(400, 500), (102, 103), (1103, 1104)]
     profiles = ["timer", "timer", "mixed"]
     standing = 0.5
@@ -319,6 +336,7 @@ class C18(CoreCheck):
 
 class C15(CoreCheck):
     pid = "C15"
+    leaf = True
     codes = [(1500, 1600), (100, 1200), (1800, 1900)]
     profiles = ["mixed", "fd", "timer", "event"]
     with_faults = 0.8
